@@ -251,6 +251,15 @@ static std::vector<CallOp> alphabet_a() {
   }
   // fungible / conforming substitutions: declared vector<int>, handler takes array<int,3>, caller passes array / vector
   ops.push_back({"SumAll(vector{1,2,3})", [](Conn& c) { return do_invoke<IfA::SumAll, int>(c, 6, eq_plain<int>, std::vector<int>{1, 2, 3}); }, "SumAll(1,2,3,)"});
+  // an lvalue argument for a by-value parameter: the request carries its value and the caller still owns it afterwards
+  ops.push_back({"SumAll(lvalue{7,8,9})",
+                 [](Conn& c) {
+                   std::vector<int> v{7, 8, 9};
+                   std::string r = do_invoke<IfA::SumAll, int>(c, 24, eq_plain<int>, v);
+                   if (r.empty() && v != std::vector<int>{7, 8, 9}) r = "Invoke changed the caller's lvalue argument (now " + std::to_string(v.size()) + " elements)";
+                   return r;
+                 },
+                 "SumAll(7,8,9,)"});
   ops.push_back({"Ping()", [](Conn& c) { return do_invoke<IfA::Ping, int>(c, 4711, eq_plain<int>); }, "Ping()"});
   ops.push_back({"Version()", [](Conn& c) { return do_invoke<IfA::Version, std::string>(c, std::string("v1.2"), eq_plain<std::string>); }, "Version()"});
   ops.push_back({"SumAll(array{4,5,6})", [](Conn& c) { return do_invoke<IfA::SumAll, int>(c, 15, eq_plain<int>, std::array<int, 3>{{4, 5, 6}}); }, "SumAll(4,5,6,)"});
